@@ -5,7 +5,6 @@ package main
 
 import (
 	"fmt"
-	"math"
 	"os"
 	"strings"
 	"time"
@@ -351,7 +350,6 @@ func main() {
 			cf.Count("source_script_ill_timed")
 		}
 	}
-	_ = math.MaxInt64
 	if err := cf.Write(f.Out); err != nil {
 		fmt.Fprintln(os.Stderr, err)
 		os.Exit(2)
